@@ -140,6 +140,19 @@ def ChoiceConstraintForcesMember(payload):
 
 
 @trigger
+def OptionClosureContainsIncompatiblePair(payload):
+    """Some option derives, by derivation edges alone, both ends of an incompatibility pair (the option conflicts
+    with itself, not with anything confirmed)."""
+    g = _g(payload)
+    for c in g.get('ch', []):
+        for o in c['opts']:
+            clo = _derived_only(g, [o])
+            if any(p[0] in clo and p[1] in clo for p in g.get('inc', [])):
+                return True
+    return False
+
+
+@trigger
 def HasConnectionChoice(payload):
     return bool(_g(payload).get('cc'))
 
